@@ -5,7 +5,7 @@ use super::sender::ext_chain;
 use crate::common::*;
 use crate::engine::{bx, guard, hash_of, EnumPart, GenPart, Property, Stats, Tier};
 use crate::oracle::refcodec::{self, Mand, Parsed};
-use dvb_gse_rust::gse_decap::{DecapError, DecapStatus};
+use dvb_gse_rust::gse_decap::DecapStatus;
 use dvb_gse_rust::gse_encap::EncapStatus;
 use dvb_gse_rust::header_extension::{Extension, ExtensionData};
 use proptest::prelude::*;
@@ -194,7 +194,8 @@ fn check_chain(c: &Case, st: &mut Stats) -> Result<(), String> {
         let mut framed = p0.clone();
         framed.extend_from_slice(&[0xE0, 0x02, 0x08, 0x00]);
         return match call_decap(&mut dec, &framed) {
-            Ok(Err((DecapError::ErrorUnkownMandatoryHeader, used))) if used == p0.len() => Ok(()),
+            // the property names no error kind: any rejection consuming exactly the packet
+            Ok(Err((_, used))) if used == p0.len() => Ok(()),
             o => st.violation("unknown-mandatory-not-dropped", format!("{}: receiver does not know {:#06x}; decap -> {} (packet is {} bytes)", desc, uid, show_dec(&o), p0.len())),
         };
     }
